@@ -415,6 +415,18 @@ def elements2d_job(lengths, form='nested', width=2):
         obs = [('vector-element reads equal the list-of-rows model [region %s; %d index expressions]' % (reg, len(v)), conj(v))
                for reg, v in sorted(by.items())]
         obs.append(('shape-reports-the-element-width', tuple(a.shape) == (n, lengths[0] if len(set(lengths)) == 1 else None, width)))
+        allc = [c for r in rows for f in r for c in f]
+        it = [flat_cells(r) for r in a]
+        obs.append(('iteration-yields-the-rows', len(it) == n and conj([x == y for i in range(n) for x, y in
+                                                                         zip(it[i], [c for f in rows[i] for c in f])])))
+        fl = flat_cells(a.flatten())
+        obs.append(('flatten-yields-every-cell-in-order', len(fl) == len(allc) and conj([x == y for x, y in zip(fl, allc)])))
+        pairs = [(i, j) for i in range(n) for j in range(lengths[i])]
+        pr = pairs[::-1]
+        got = a[[p[0] for p in pr], [p[1] for p in pr]]
+        exp = [c for (i, j) in pr for c in rows[i][j]]
+        gl = flat_cells(got)
+        obs.append(('paired fancy indices select the addressed frames', len(gl) == len(exp) and conj([x == y for x, y in zip(gl, exp)])))
 
         def witness(model, label=None):
             with core.concrete_mode():
